@@ -74,7 +74,13 @@ func writeToFile(swspec *spec.Swagger, pretty bool, format string, output string
 	}
 
 	if output == "" {
-		fmt.Println(string(b))
+		if asJSON {
+			fmt.Println(string(b))
+		} else {
+			// the YAML document ends with a line feed of its own: one more would be added to a
+			// block scalar which ends the document
+			fmt.Print(string(b))
+		}
 		return nil
 	}
 
